@@ -352,6 +352,14 @@ def plan(tier, rng, sl, nslices, stats):
                        parsers=["cnf", "rd"] if r == 2 else ["cnf", "ll1"])
     from vf.props import c18
     from vf.props.c14 import nullable_body_case, nullable_tail_case
+    if sl == 0:
+        # scale cases (one worker): a right-recursive feature-free grammar and sentences of 520 tokens; a grammar that
+        # already holds ten helper variables, extended and parsed through its normal form
+        n = 520
+        yield {"kind": "fcfg", "via": "text", "prods": [["S", {}, [["V", "L", {}], ["T", "b"]]],
+                                                      ["L", {}, [["T", "a"], ["V", "L", {}]]], ["L", {}, [["T", "b"]]]],
+               "long_words": [["a"] * n + ["b", "b"], ["a"] * n + ["b"], ["a"] * (n // 2) + ["b", "b"]]}
+        yield dict(gcfg.long_body_case(rng), parsers=["cnf"])
     for i in range(cfg["random"] // 6):
         yield dict(nullable_tail_case(rng), parsers=["cnf", "ll1"])
     for i in range(cfg["random"] // 5):
@@ -387,6 +395,8 @@ def run_fcfg(c, stats):
             ok, t = call(g.get_parse_tree, values.word_form(w, len(w)))
             if ok:
                 trees.append(t)
+        for w in c.get("long_words", ()):
+            ok, t = call(g.get_parse_tree, list(w))          # sentences of several hundred tokens
         for t in trees[:20]:
             call(t.get_leftmost_derivation)
             call(t.get_rightmost_derivation)
@@ -447,6 +457,22 @@ def run_case(c, stats):
                         continue
                     if ok:
                         trees.append(t)
+    if c.get("longbody"):
+        from pyformlang.cfg import CFG, Production, Terminal
+        okn, nf = call(g.to_normal_form)
+        if okn:
+            s_ = g.start_symbol
+            t0_, t1_, t2_ = (gcfg.tval(c, j) for j in range(3))
+            ok4, g3 = call(CFG, start_symbol=s_, productions=set(nf.productions) |
+                           {Production(s_, [Terminal(t0_), s_, Terminal(t1_), Terminal(t2_)])})
+            if ok4:
+                for w in c["long_words"][:2]:
+                    ww = [gcfg.tval(c, j) for j in w]
+                    for cand in [ww, [t0_] + ww + [t1_, t2_]] + [[t0_] + ww[i:] for i in range(1, len(ww))] + \
+                            [[t0_] + ww[i:] + [t1_, t2_] for i in range(1, len(ww))]:
+                        ok5, t5 = call(g3.get_cnf_parse_tree, cand)
+                        if ok5:
+                            trees.append(t5)
     for t in trees[:40]:
         call(t.get_leftmost_derivation)
         call(t.get_rightmost_derivation)
